@@ -1,36 +1,36 @@
 /-
   Cider.Model.Moves — the permutation moves of `Sequence` as functions of an explicit tape of
-  random outcomes (C17).  Every move returns the child's sequence (or `none` for "returned self").
+  random outcomes (C17).  Every move returns the child's sequence (`none` = "returned self").
+  The moves are written structurally (split / deal), so that "the result is a rearrangement"
+  is a theorem by construction lemmas; the correspondence run ties them to the code's index juggling.
 -/
 import Cider.Model.SeqParams
 namespace Cider
 
-def listSet {α : Type} (l : List α) (i : Nat) (v : α) : List α := l.set i v
+/-- residues paired with their 0-based index -/
+def idxd (s : Seq) : List (Nat × AA) := (List.range s.length).zip s
+/-- the residues at the positions satisfying `p`, in sequence order -/
+def pick (s : Seq) (p : Nat → Bool) : Seq := ((idxd s).filter (fun ia => p ia.1)).map (·.2)
+def classPattern (N : Nat) (cls : Nat → Int) : Pattern := (List.range N).map cls
+
+/-- exchange the blocks `[a, a+L)` and `[b, b+L)` (requires `a + L ≤ b`, `b + L ≤ N`) -/
+def swapBlocks (s : Seq) (a b L : Nat) : Seq :=
+  s.take a ++ (s.drop b).take L ++ (s.drop (a + L)).take (b - (a + L)) ++ (s.drop a).take L ++ s.drop (b + L)
 
 /-- `swapRes(i, j)` -/
 def swapRes (s : Seq) (i j : Nat) : Seq :=
-  match s[i]?, s[j]? with
-  | some a, some b => (s.set i b).set j a
-  | _, _ => s
+  if i = j then s else if s.length ≤ max i j then s else swapBlocks s (min i j) (max i j) 1
 
-/-- `full_shuffle(frozen)`: `order` is the list after `rand.shuffle` (consumed from the end by `pop()`),
-    frozen positions keep their residue -/
-def fullShuffleAux (s : Seq) (frozen : List Nat) : Nat → List AA → List Nat → List AA
-  | _, [], _ => []
-  | i, a :: rest, stack =>
-    if i ∈ frozen then a :: fullShuffleAux s frozen (i + 1) rest stack
-    else match stack with
-      | [] => a :: fullShuffleAux s frozen (i + 1) rest []   -- ill-formed tape
-      | k :: stack' => (s[k]?).getD a :: fullShuffleAux s frozen (i + 1) rest stack'
-
-/-- `order.reverse` is the pop order -/
+/-- `full_shuffle(frozen)`: `order` is the list after `rand.shuffle` (consumed from the end by `pop()`);
+    frozen positions keep their residue, the others receive `s[order.pop()]` in turn -/
 def fullShuffle (s : Seq) (frozen : List Nat) (order : List Nat) : Seq :=
-  fullShuffleAux s frozen 0 s order.reverse
+  dealOut (classPattern s.length (fun i => if i ∈ frozen then 0 else 1))
+    (order.reverse.filterMap (fun k => s[k]?)) [] (pick s (fun i => i ∈ frozen))
 
 /-- well-formed shuffle outcome: a permutation of the movable indices -/
 def shuffleTapeOK (s : Seq) (frozen order : List Nat) : Bool :=
   let movable := (List.range s.length).filter (fun i => i ∉ frozen)
-  order.length == movable.length && movable.all (fun i => order.count i == 1)
+  order.isPerm movable
 
 /-- index sets of `swapRandChargeRes` -/
 def idxOf (T : Tables) (s : Seq) (frozen : List Nat) (sign : Int) : List Nat :=
@@ -43,51 +43,42 @@ def chargeTypeChoice (npos nneg nneut : Nat) : Option (Option (Nat × Nat)) :=
   else if npos = 0 then (if nneg = 0 ∨ nneut = 0 then none else some (some (2, 3)))
   else some none
 
-/-- `swapRandChargeRes(frozen)` given the drawn class pair (if any) and the two sampled indices;
-    `none` = the object itself is returned -/
-def swapRandCharge (T : Tables) (s : Seq) (frozen : List Nat) (drawn : Nat × Nat) (i j : Nat) : Option (Option Seq) :=
-  let P := idxOf T s frozen 1
-  let Ng := idxOf T s frozen (-1)
-  let U := idxOf T s frozen 0
-  match chargeTypeChoice P.length Ng.length U.length with
-  | none => some none
-  | some ct =>
-    let t := ct.getD drawn
-    let cls := fun (k : Nat) => if k = 1 then P else if k = 2 then Ng else U
-    if i ∈ cls t.1 ∧ j ∈ cls t.2 ∧ t.1 ≠ t.2 ∧ 1 ≤ t.1 ∧ t.1 ≤ 3 ∧ 1 ≤ t.2 ∧ t.2 ≤ 3 then some (some (swapRes s i j)) else none
+/-- the two sampled indices come from the two (distinct) classes selected -/
+def swapChargeOK (T : Tables) (s : Seq) (frozen : List Nat) (t : Nat × Nat) (i j : Nat) : Bool :=
+  let cls := fun (k : Nat) => if k = 1 then idxOf T s frozen 1 else if k = 2 then idxOf T s frozen (-1) else idxOf T s frozen 0
+  decide (i ∈ cls t.1) && decide (j ∈ cls t.2) && decide (t.1 ≠ t.2) && decide (1 ≤ t.1) && decide (t.1 ≤ 3) &&
+    decide (1 ≤ t.2) && decide (t.2 ≤ 3)
 
-/-- one iteration of `permute_block_swap`: block size and the two sampled start indices (sorted inside) -/
+/-- `swapRandChargeRes(frozen)` given the drawn class pair (if any) and the two sampled indices;
+    outer `none` = ill-formed tape, `some none` = the object itself is returned -/
+def swapRandCharge (T : Tables) (s : Seq) (frozen : List Nat) (drawn : Nat × Nat) (i j : Nat) : Option (Option Seq) :=
+  match chargeTypeChoice (idxOf T s frozen 1).length (idxOf T s frozen (-1)).length (idxOf T s frozen 0).length with
+  | none => some none
+  | some ct => if swapChargeOK T s frozen (ct.getD drawn) i j then some (some (swapRes s i j)) else none
+
+/-- one iteration of `permute_block_swap`: block size and the two sampled start indices; the slice
+    quirk of the code moves `bs − 1` residues of each block -/
 def blockSwap (s : Seq) (bs a0 b0 : Nat) : Seq :=
-  let a := min a0 b0
-  let b := max a0 b0 + (bs - 1)
-  -- newseq[a : a+bs-1] = old[b : b+bs-1] ; newseq[b : b+bs-1] = old[a : a+bs-1]
-  (List.range s.length).zipWith (fun i x =>
-    if a ≤ i ∧ i < a + (bs - 1) then (s[b + (i - a)]?).getD x
-    else if b ≤ i ∧ i < b + (bs - 1) then (s[a + (i - b)]?).getD x
-    else x) s
+  swapBlocks s (min a0 b0) (max a0 b0 + (bs - 1)) (bs - 1)
 
 def blockTapeOK (s : Seq) (bs a0 b0 : Nat) : Bool :=
   2 ≤ bs && bs ≤ s.length / 2 && a0 != b0 && a0 < s.length - (bs - 1) * 2 && b0 < s.length - (bs - 1) * 2
 
-/-- one iteration of `permute_cluster_charges`: the cluster window and the sampled outside positions -/
+/-- one iteration of `permute_cluster_charges`: the cluster window `[center − ⌊cs/2⌋, center + ⌈cs/2⌉)` and
+    the sampled outside positions exchange their residues, each group keeping its internal order -/
 def clusterSwap (s : Seq) (cs center : Nat) (swapIdxs : List Nat) : Seq :=
   let lo := center - cs / 2
   let hi := center + (cs + 1) / 2
-  let clusterIdxs := (List.range s.length).filter (fun i => lo ≤ i ∧ i < hi)
-  let clusterRes := clusterIdxs.filterMap (fun i => s[i]?)
-  let swapSorted := (List.range s.length).filter (fun i => i ∈ swapIdxs)
-  let swapRes' := swapSorted.filterMap (fun i => s[i]?)
-  let rec go : Nat → List AA → List AA → List AA → List AA
-    | _, [], _, _ => []
-    | i, x :: rest, cr, sr =>
-      if i ∈ swapIdxs then match cr with
-        | c :: cr' => c :: go (i + 1) rest cr' sr
-        | [] => x :: go (i + 1) rest cr sr
-      else if lo ≤ i ∧ i < hi then match sr with
-        | c :: sr' => c :: go (i + 1) rest cr sr'
-        | [] => x :: go (i + 1) rest cr sr
-      else x :: go (i + 1) rest cr sr
-  go 0 s clusterRes swapRes'
+  let inWin : Nat → Bool := fun i => decide (lo ≤ i ∧ i < hi)
+  let inSwap : Nat → Bool := fun i => decide (i ∈ swapIdxs)
+  dealOut (classPattern s.length (fun i => if inSwap i then 1 else if inWin i then -1 else 0))
+    (pick s (fun i => inWin i && !inSwap i)) (pick s inSwap) (pick s (fun i => !inSwap i && !inWin i))
+
+def clusterTapeOK (s : Seq) (cs center : Nat) (swapIdxs : List Nat) : Bool :=
+  let lo := center - cs / 2
+  let hi := center + (cs + 1) / 2
+  2 ≤ cs && cs / 2 ≤ center && hi ≤ s.length && swapIdxs.length == cs &&
+  swapIdxs.all (fun i => i < s.length && !(decide (lo ≤ i ∧ i < hi)) && swapIdxs.count i == 1)
 
 def natList (t : String) : List Nat := if t == "-" then [] else (t.splitOn ",").map String.toNat!
 
@@ -109,7 +100,9 @@ def moveOp (T : Tables) (kind : String) (s : Seq) (args : List String) : String 
     | some _ => "bad-tape"
   | "block", [bs, a, b] =>
     if blockTapeOK s bs.toNat! a.toNat! b.toNat! then "str " ++ (blockSwap s bs.toNat! a.toNat! b.toNat!).toString else "bad-tape"
-  | "cluster", [cs, center, sw] => "str " ++ (clusterSwap s cs.toNat! center.toNat! (natList sw)).toString
+  | "cluster", [cs, center, sw] =>
+    if clusterTapeOK s cs.toNat! center.toNat! (natList sw) then "str " ++ (clusterSwap s cs.toNat! center.toNat! (natList sw)).toString
+    else "bad-tape"
   | _, _ => "bad-op move"
 
 end Cider
